@@ -17,7 +17,7 @@ RULE = ('Each run builds 1-2 argument lists (direct TexArgs, or node.args of a p
         'compared with a Python list of serialised groups. Non-trivial: at least one mutating operation succeeded; '
         'distinct by digest of (owners, initial groups, resolved operations).')
 STUBS = []
-PROBES = ['owner-reassigned', 'same-object-twice', 'duplicate-present', 'insert-negative', 'insert-beyond-len', 'pop-default', 'rejected-malformed',
+PROBES = ['whitespace-in-shadow-list', 'owner-reassigned', 'same-object-twice', 'duplicate-present', 'insert-negative', 'insert-beyond-len', 'pop-default', 'rejected-malformed',
           'rejected-absent', 'rejected-index', 'slice-alias-mutated', 'owner-cmd', 'owner-env', 'string-coerced']
 ASSUMPTIONS = ['whitespace-only strings are not part of the operation set (the property does not define them)',
                'extend() is only given well-formed elements']
@@ -44,7 +44,12 @@ def gen(st, index, job):
     for _ in range(nlists):
         owner = ('none', 'none', 'cmd', 'env')[r.randrange(4)]
         n = (0, 1, 1, 2, 2, 3, 4, 5)[r.randrange(8)]
-        lists.append({'owner': owner, 'init': [POOL[r.randrange(len(POOL))] for _ in range(n)]})
+        spec = {'owner': owner, 'init': [POOL[r.randrange(len(POOL))] for _ in range(n)]}
+        if owner == 'none' and r.random() < 0.3:
+            # whitespace recorded between the arguments (it lives in the shadow list
+            # only; the list proper and every operation on it are unaffected)
+            spec['ws'] = [('', '\n', ' ', '\t ')[r.randrange(4)] for _ in range(n + 1)]
+        lists.append(spec)
     ro = st['ops']
     nops = (1, 2, 2, 3, 3, 4, 5, 6, 8, 10, 14, 20, 40)[ro.randrange(13)]
     enabled = [o for o in OPS if ro.random() < 0.7] or ['append', 'pop']
@@ -72,7 +77,19 @@ def _build(spec):
     from TexSoup import TexSoup
     from TexSoup.data import TexArgs
     if spec['owner'] == 'none':
-        return TexArgs(list(spec['init'])), None, '', ''
+        items = list(spec['init'])
+        ws = spec.get('ws')
+        if ws:
+            mixed = []
+            for k, it in enumerate(items):
+                if ws[k]:
+                    mixed.append(ws[k])
+                mixed.append(it)
+            if ws[len(items)]:
+                mixed.append(ws[len(items)])
+            items = mixed
+            # (probe) whitespace entries present in the shadow list
+        return TexArgs(items), None, '', ''
     if spec['owner'] == 'cmd':
         soup = TexSoup('\\cmd' + ''.join(spec['init']))
         node = soup.find('cmd')
@@ -110,6 +127,8 @@ def run(case):
         model.append(list(init))
         owners.append((node, pre, post))
         count('probe.owner-' + spec['owner'])
+        if spec.get('ws') and any(spec['ws']):
+            count('probe.whitespace-in-shadow-list')
     resolved = []
     mutated = False
     aliases = set()    # indices of lists created by slicing
